@@ -43,13 +43,19 @@ cocls::with_allocator<Alloc, cocls::async<int>> sized_coro(Alloc &, cocls::futur
 }
 template<class Alloc>
 cocls::future<int> create(Alloc &a, int size_class, cocls::future<void> *gate, int id) {
+    // six frame sizes, the first four close together (a policy that grows its block must cope with several
+    // slightly larger requests in a row, not only with jumps by a large factor)
     switch (size_class) {
         case 0: return sized_coro<Alloc, 8>(a, gate, id).start();
-        case 1: return sized_coro<Alloc, 200>(a, gate, id).start();
+        case 1: return sized_coro<Alloc, 40>(a, gate, id).start();
+        case 2: return sized_coro<Alloc, 72>(a, gate, id).start();
+        case 3: return sized_coro<Alloc, 104>(a, gate, id).start();
+        case 4: return sized_coro<Alloc, 300>(a, gate, id).start();
         default: return sized_coro<Alloc, 1500>(a, gate, id).start();
     }
 }
 
+constexpr int NSC = 6;      // number of frame size classes (ascending frame size)
 enum { P_DEFAULT, P_REUSABLE, P_REUSABLE_MT, P_STACK, P_PLACEMENT, P_REUSABLE_BUFFER, P_EXTRA, P_COUNT, P_MT_THREADS = P_COUNT };
 // sub-variants of P_EXTRA (taken from the first op byte): type of the attached object x base policy
 enum { X_INT_DEFAULT, X_ALIGN16_DEFAULT, X_INT_MT, X_ALIGN16_MT, X_COUNT };
@@ -67,8 +73,8 @@ inline std::string describe_seq(const SeqProg &p) {
     for (auto &o : p.ops) {
         if (o.code == 2) { d << " complete(#" << (unsigned)o.a << ")"; continue; }
         if (p.policy != P_STACK && o.code == 3 && (o.a & 4)) d << " [movable policy with no live frame: move the storage object away and back; otherwise:]";
-        d << " create(size class " << (unsigned)(o.a % 3) << ")";
-        if (p.policy == P_STACK && (o.a & 8)) d << "+create(size class " << (unsigned)((o.a >> 4) % 3) << " in the same storage object)";
+        d << " create(size class " << (unsigned)(o.a % NSC) << ")";
+        if (p.policy == P_STACK && (o.a & 8)) d << "+create(size class " << (unsigned)((o.a >> 4) % NSC) << " in the same storage object)";
     }
     d << "; complete the rest";
     return d.s;
@@ -120,7 +126,7 @@ struct SeqRun {
                 // moving the storage object (documented movable) while no frame lives in it keeps its block: no new allocation later
                 if (o.code == 3 && (o.a & 4) && live() == 0) { A tmp(std::move(alloc)); alloc = std::move(tmp); continue; }
             }
-            int sc = o.a % 3;
+            int sc = o.a % NSC;
             if (single_use && live() > 0) { complete(*frames.back()); }      // documented single use: one live frame at a time
             bool block_busy = mtsafe && block_owner != nullptr;
             Frame &f = new_frame(sc);
@@ -145,8 +151,8 @@ struct SeqRun {
         }
         for (auto &f : frames) complete(*f);
     }
-    bool size_seen[3] = {false, false, false};
-    bool larger_seen(int sc) { for (int k = sc + 1; k < 3; k++) if (size_seen[k]) return true; return false; }
+    bool size_seen[NSC] = {};
+    bool larger_seen(int sc) { for (int k = sc + 1; k < NSC; k++) if (size_seen[k]) return true; return false; }
 
     // stack_storage: memory comes from alloca in the caller's frame, so the coroutine lives inside one call
     // one storage object serves the coroutines of this call one after another (a single live frame at a time)
@@ -179,7 +185,7 @@ struct SeqRun {
         std::vector<std::unique_ptr<XS>> stor;
         for (auto &o : p.ops) {
             if (o.code == 2) { if (!frames.empty()) { Frame &f = *frames[o.a % frames.size()]; bool was = f.live; long alive = hz::slot_get(36); complete(f); if (was) HZ_CHECK(hz::slot_get(36) == alive - 1, "the attached extra object was not destroyed together with its frame"); } continue; }
-            int sc = o.a % 3; int tag = 500 + next_id;
+            int sc = o.a % NSC; int tag = 500 + next_id;
             long built = hz::slot_get(35);
             stor.emplace_back(new XS([tag] { return E(tag); }));
             Frame &f = new_frame(sc);
@@ -204,7 +210,7 @@ struct SeqRun {
                 std::size_t state = 0; int learned = -1;
                 for (auto &o : p.ops) {
                     if (o.code == 2) continue;
-                    int sc = o.a % 3, sc2 = (o.a & 8) ? (o.a >> 4) % 3 : -1;
+                    int sc = o.a % NSC, sc2 = (o.a & 8) ? (o.a >> 4) % NSC : -1;
                     stack_once(state, sc, sc2, learned);
                 }
             } break;
@@ -238,7 +244,7 @@ inline void run_seq(const SeqProg &p) {
 
 // ---------------------------------------------------------------- (b) two threads, one mt-safe storage
 struct MtProg { uint8_t rounds[2]; uint8_t sc[2]; uint8_t yields[2]; };
-inline MtProg decode_mt(hz::Reader &r) { MtProg p; for (int i = 0; i < 2; i++) { p.rounds[i] = (uint8_t)(1 + r.mod(3)); p.sc[i] = (uint8_t)r.mod(3); p.yields[i] = (uint8_t)r.mod(3); } return p; }
+inline MtProg decode_mt(hz::Reader &r) { MtProg p; for (int i = 0; i < 2; i++) { p.rounds[i] = (uint8_t)(1 + r.mod(3)); { static const uint8_t m[3] = {0, 4, 5}; p.sc[i] = m[r.mod(3)]; } p.yields[i] = (uint8_t)r.mod(3); } return p; }
 inline std::string describe_mt(const MtProg &p) {
     hz::Desc d; d << "two threads on one reusable_storage_mtsafe:";
     for (int i = 0; i < 2; i++) d << " T" << i << "[" << (unsigned)p.rounds[i] << " coroutines of size class " << (unsigned)p.sc[i] << ", yield*" << (unsigned)p.yields[i] << "]";
